@@ -285,3 +285,24 @@ func VerifReaderFeed(src io.Reader, delimNil bool) (views [][]byte, copies [][]b
 	r.feed(src)
 	return
 }
+
+// --- terminal.go (placeholders), proxy.go (tmux re-quoting) ---
+
+// VerifReplacePlaceholder expands a command template the way Terminal.replacePlaceholder does.
+// items[0] is the current item (nil if none), the rest are the selected items (none: only nil).
+func VerifReplacePlaceholder(template string, query string, items []*Item, delimiter Delimiter, withShell string, forcePlus bool) (string, []string) {
+	return replacePlaceholder(replacePlaceholderParams{
+		template:   template,
+		stripAnsi:  false,
+		delimiter:  delimiter,
+		printsep:   "\n",
+		forcePlus:  forcePlus,
+		query:      query,
+		allItems:   items,
+		lastAction: actStart,
+		prompt:     "> ",
+		executor:   util.NewExecutor(withShell),
+	})
+}
+
+func VerifEscapeSingleQuote(s string) string { return escapeSingleQuote(s) }
